@@ -564,6 +564,9 @@ func c08CacheCoherence(c *Ctx) {
 			if nt, isNamed := ft.(*types.Named); isNamed {
 				c08ResetComplete(c, nt, construct)
 			}
+			if !strings.HasPrefix(o.typ, "zzVerif") {
+				c08FillAfterSuccess(c, o.pkg, o.typ, f.Name())
+			}
 			c.check(ok, "cache-coherence", construct, p.Pos(f.Pos()), "dropped as a whole on every path of the revert", "a cache held by the chain object is not dropped as a whole on every path of the revert"+selective+": entries filled before a reorg keep answering for blocks the node no longer holds (a reverted hash keeps resolving to its old height)")
 		}
 	}
@@ -1004,4 +1007,58 @@ func isNamedT(t types.Type, want *types.Named) bool {
 		t = pt.Elem()
 	}
 	return types.Identical(t, want)
+}
+
+// c08FillAfterSuccess: (cache-coherence, fill-after-success clause) an entry is put into a cache of the chain object only on
+// paths where every fallible step that precedes it in the same function has succeeded: for each error-returning call that
+// dominates the fill, the path condition of the fill contains `err == nil` for that call. Seeded change C08-L warms a
+// hash→number cache in Store with `err := backend.Store(..); cache.Add(hash, number); return err`: a refused block leaves
+// its hash resolvable, and by-hash reads later answer with the canonical block of that height.
+func c08FillAfterSuccess(c *Ctx, ownerPkg, ownerTyp, fld string) {
+	p := c.P
+	for _, fn := range p.sortedFuncs() {
+		if pkgRelOf(fn) != ownerPkg || fn.Origin() != nil || strings.HasSuffix(p.Pos(fnPos(fn)), "_test.go") {
+			continue
+		}
+		for _, g := range withAnons(fn) {
+			for _, s := range sitesOf(g) {
+				if !c08TouchesField(s, fld, []string{"Add", "Put", "Set", "Store", "ContainsOrAdd", "PeekOrAdd"}) {
+					continue
+				}
+				d := p.mustHoldAt(s.Instr)
+				var unchecked []string
+				for _, k := range sitesOf(g) {
+					kv, isVal := k.Instr.(ssa.Value)
+					if !isVal || k.Instr == s.Instr || !dominatesInstr(k.Instr, s.Instr) {
+						continue
+					}
+					sig := k.Instr.Common().Signature()
+					if sig == nil || sig.Results().Len() == 0 || sig.Results().At(sig.Results().Len()-1).Type().String() != "error" {
+						continue
+					}
+					// the error value: the call itself (single result) or its last component
+					var ev ssa.Value = kv
+					if sig.Results().Len() > 1 {
+						ev = nil
+						if refs := kv.Referrers(); refs != nil {
+							for _, r := range *refs {
+								if ex, ok := r.(*ssa.Extract); ok && ex.Index == sig.Results().Len()-1 {
+									ev = ex
+								}
+							}
+						}
+					}
+					if ev == nil {
+						continue // error discarded: not this rule's business
+					}
+					et := term(ev)
+					if ok, _ := everyDisjunctHas(d, []string{"^!", et, "!= nil"}, []string{et + " == nil"}); !ok {
+						unchecked = append(unchecked, k.CalleeName())
+					}
+				}
+				c.check(len(unchecked) == 0, "cache-coherence", ownerTyp+"."+fld+" filled in "+qname(fn), p.Pos(s.Pos()), "the cache is filled only after the fallible steps before it succeeded",
+					"an entry is added to the cache although the error of "+strings.Join(uniq(unchecked), ", ")+" has not been checked on this path: when that step fails (a refused block, a failed read) the cache remembers something the node does not hold")
+			}
+		}
+	}
 }
